@@ -197,7 +197,7 @@ func (p *packer) checkBounds(min, max int64) bool {
 }
 
 func (p *packer) checkFloatSize(max float64) bool {
-	ok := (p.floatVal >= -max && p.floatVal <= max) || math.IsInf(p.floatVal, 0)
+	ok := (p.floatVal >= -max && p.floatVal <= max) || math.IsInf(p.floatVal, 0) || math.IsNaN(p.floatVal)
 	if !ok {
 		p.err = errOutOfBounds
 	}
